@@ -711,6 +711,7 @@ pub fn gen(r: &mut Rng, thorough: bool) -> Vec<(String, String)> {
     for it in 0..(if thorough { 2400 } else { 240 }) { v.extend(gen_hf_lattice_case(r, it % 4 != 3, &mut fam)); }
     // ---- the trace of the 3-D height-field cell walk (bit-exact model + exact covering oracle)
     v.extend(gen_hfwalk(r, thorough));
+    v.extend(gen_hfbest(r, thorough));
     // ---- the exit conditions of the GJK-route cast around its GJK-layer calls (bit-exact glue model + clause oracle)
     for it in 0..(if thorough { 12000 } else { 1200 }) { if let Some(c) = gen_smsm_case(r, it % 2 == 0) { v.push(c); } }
     if std::env::var("C06_FAMILIES").is_ok() { for (k, n) in &fam { eprintln!("family {} {}", k, n); } }
